@@ -15,8 +15,19 @@ Proof.
   - discriminate.
 Qed.
 
-Lemma P_b_sound : forall cs : case, P_b cs = true -> Forall (query_ok (c_cfg cs) (c_deflevel cs)) (c_queries cs).
+Lemma over_later_sound : forall l w, over_later P_query w l = true -> later_ok w l.
 Proof.
-  intros cs H. unfold P_b in H. rewrite forallb_forall in H.
-  apply Forall_forall. intros q Hq. apply P_query_sound, H, Hq.
+  induction l as [|[chs qs] l IH]; intros w H; cbn [over_later later_ok] in *; [exact I|].
+  apply andb_true_iff in H as [Hq Hl]. split.
+  - rewrite forallb_forall in Hq. apply Forall_forall. intros q Hin. apply P_query_sound, Hq, Hin.
+  - apply IH, Hl.
+Qed.
+
+Lemma P_b_sound : forall cs : case, P_b cs = true ->
+  Forall (query_ok (c_cfg cs) (c_deflevel cs)) (c_queries cs) /\
+  later_ok (c_cfg cs, c_deflevel cs) (c_later cs).
+Proof.
+  intros cs H. unfold P_b in H. apply andb_true_iff in H as [H Hl]. rewrite forallb_forall in H. split.
+  - apply Forall_forall. intros q Hq. apply P_query_sound, H, Hq.
+  - apply over_later_sound, Hl.
 Qed.
